@@ -164,6 +164,55 @@ def replay_banners(rep):
     rep.extra['generated_banners'] = len(cases)
 
 
+def curve_family_events(rep):
+    """RFC 5656 10.1 / PROTOCOL.certkeys: the three REQUIRED curves share one blob layout - string name, [string nonce,] string
+    curve identifier, string point - so a conformant blob for nistp256 becomes a conformant blob for nistp384 / nistp521 by
+    exchanging the curve name in both strings and the point (its length is fixed by the curve).  Every such blob has to be
+    accepted by the class and by the host key dispatcher and composed back to the same bytes."""
+    import struct
+    from cryptoparser.ssh.key import SshHostPublicKeyVariant
+    points = {'nistp256': 65, 'nistp384': 97, 'nistp521': 133}
+    events = []
+
+    def strings(blob, count):
+        out, pos = [], 0
+        for _ in range(count):
+            n = struct.unpack('>I', blob[pos:pos + 4])[0]
+            out.append(blob[pos + 4:pos + 4 + n])
+            pos += 4 + n
+        return out, blob[pos:]
+
+    def pack(parts):
+        return b''.join(struct.pack('>I', len(x)) + x for x in parts)
+    seen = set()
+    for cls, obj, _ in objects.templates():
+        if 'ECDSA' not in cls.__name__ or type(obj) is not cls or not hasattr(obj, 'key_bytes'):
+            continue
+        out, blob, _ = call(lambda o: bytes(o.key_bytes), obj)
+        if out != 'ok':
+            continue
+        is_cert = b'-cert-v01@openssh.com' in blob[:80]
+        parts, rest = strings(blob, 4 if is_cert else 3)
+        name = parts[0].decode('ascii')
+        curve = parts[2 if is_cert else 1].decode('ascii')
+        if curve not in points or curve not in name or (cls.__name__, curve) in seen:
+            continue
+        seen.add((cls.__name__, curve))
+        for target, plen in sorted(points.items()):
+            point = b'\x04' + bytes((7 * i + len(target)) % 256 for i in range(plen - 1))
+            new_parts = [name.replace(curve, target).encode('ascii')] + ([parts[1]] if is_cert else []) + [target.encode('ascii'), point]
+            wire = pack(new_parts) + rest
+            for entry, parser in (('class', cls), ('dispatcher', SshHostPublicKeyVariant)):
+                o2, res, _ = call(parser.parse_exact_size, wire)
+                same = False
+                if o2 == 'ok':
+                    o3, back, _ = call(lambda k: bytes(k.key_bytes), res)
+                    same = o3 == 'ok' and back == wire
+                events.append({'ev': 'conformant_blob', 'cls': cls.__name__, 'entry': entry, 'alg': new_parts[0].decode('ascii'),
+                               'out': o2, 'same': bool(same), 'wire': list(wire[:120])})
+    return events
+
+
 def collect(rep, thorough):
     rng = rep.rng
     pool = objects.vector_item_pool()
@@ -194,6 +243,9 @@ def run(rep):
     for e in events:
         rep.case(digest([e['kind'], e['wire']]))
     pk = packet_events(rep, thorough)
+    cb = curve_family_events(rep)
+    rep.extra['conformant_ecdsa_blobs'] = len(cb)
+    rep.evaluations += len(cb)
     kinds = {}
     for e in events:
         kinds[e['kind']] = kinds.get(e['kind'], 0) + 1
@@ -205,10 +257,13 @@ def run(rep):
                 'with SshWire.Enc and the padding rule. Distinct by bytes / length.' % ('all' if thorough else 'all up to 600, then every 37th'))
     rep.sample({k: (v if k != 'wire' else v[:40]) for k, v in events[0].items()})
     rep.sample(pk[3])
-    traces = [events[i:i + 300] for i in range(0, len(events), 300)] + [pk[i:i + 4000] for i in range(0, len(pk), 4000)]
+    traces = [events[i:i + 300] for i in range(0, len(events), 300)] + [pk[i:i + 4000] for i in range(0, len(pk), 4000)] + ([cb] if cb else [])
     for tup, ti, ei, e in judge.run(rep, 'Trace_SshWire', list(enumerate(traces)), 'sshwire', max_lines=3000):
         clause = tup[1]
-        if e['ev'] == 'packet':
+        if e['ev'] == 'conformant_blob':
+            rep.violation('%s|%s|%s:%s' % (e['cls'], clause, e['entry'], e['alg']), '%s blob for %s given to the %s: %s (parse %s)' % (
+                e['cls'], e['alg'], e['entry'], clause, e['out']), e)
+        elif e['ev'] == 'packet':
             rep.violation('SshRecord|%s|payload-length' % clause, 'binary packet for payload length %d: %s' % (e['n'], clause), e)
         else:
             field = e['origin'].replace('variant:', '') if e['origin'].startswith('variant:') else e['origin']
